@@ -325,7 +325,7 @@ def canon(n, env=None, depth=0):
 # --------------------------------------------------------------------------- functions / CFG
 
 class Block:
-    __slots__ = ("fn", "id", "elems", "term", "termkind", "cond", "succs", "reach", "noret", "preds")
+    __slots__ = ("fn", "id", "elems", "term", "termkind", "cond", "succs", "reach", "noret", "preds", "label")
 
     def __init__(self, fn, d):
         self.fn = fn
@@ -337,6 +337,7 @@ class Block:
         self.succs = [s["b"] for s in d["succs"]]
         self.reach = [s["reach"] for s in d["succs"]]
         self.noret = d.get("noret", False)
+        self.label = d.get("label")
         self.preds = []
 
     def nodes(self):
